@@ -7,6 +7,7 @@ import (
 	"unicode/utf8"
 
 	"github.com/gdamore/tcell/v2"
+	"github.com/gdamore/tcell/v2/terminfo"
 	"golang.org/x/text/encoding"
 	"pgregory.net/rapid"
 	"verif.local/hx"
@@ -220,6 +221,25 @@ func runC17(t *rapid.T) {
 	cfg.LocaleVia = rapid.IntRange(0, 4).Draw(t, "localevia")
 	members := membersOf(cfg.Locale)
 	ch := hx.DrawChooser(t, 40)
+	// the application may hand the screen its own edited copy of the
+	// description, under the same name: without an alternate character set,
+	// or with one that has only the line-drawing glyphs.  A screen follows
+	// the description it was given.
+	switch rapid.IntRange(0, 5).Draw(t, "editedti") {
+	case 0:
+		hx.TiEdit = func(ti *terminfo.Terminfo) { ti.AltChars = "" }
+	case 1:
+		hx.TiEdit = func(ti *terminfo.Terminfo) {
+			keep := ""
+			for i := 0; i+1 < len(ti.AltChars); i += 2 {
+				if strings.IndexByte("jklmnqtuvwx", ti.AltChars[i]) >= 0 {
+					keep += ti.AltChars[i : i+2]
+				}
+			}
+			ti.AltChars = keep
+		}
+	}
+	defer func() { hx.TiEdit = nil }()
 	hx.Arm("C17")
 	defer hx.Disarm()
 	w, err := newDW(cfg, ch, "C17")
